@@ -3,7 +3,9 @@
    B. semantics with valuations: substitution lemma for zero_out, multi-additivity,
       "no term lost or duplicated" for _to_matrix_form, block locality, syntactic criterion
    C. Integral / IntAdd / TerminalExpr(form): one kernel per region, region-wise sums, zero forms
-   D. kernels keyed by a Union: distribution to the members conserves the sums *)
+   D. kernels keyed by a Union: distribution to the members conserves the sums
+   E. form objects with non-atomic domain entries: constructed forms take the atomic arm, the general arm conserves
+   (the scalar operators of Integral / IntAdd - linear maps on integrands - are treated in B/C: wsem, ieval_rsum) *)
 From Coq Require Import String Ascii ZArith List Bool Arith PeanoNat Lia Permutation Field_theory Field.
 From V Require Import Core.FieldEq Core.Terminal Core.TerminalP Core.DField Core.SExpr Core.Canon.
 From V Require Import Model.FormsM Proofs.DOpP.
@@ -560,14 +562,21 @@ Proof.
 Qed.
 
 (* predicates on integrands that survive the re-grouping of integrals *)
-Definition closed (Q : texpr -> Prop) : Prop := Q (TZ 0) /\ forall x y, Q x -> Q y -> Q (TAdd x y).
+Definition closed (Q : texpr -> Prop) : Prop := forall x y, Q x -> Q y -> Q (TAdd x y).
 
-Lemma closed_tsum Q l : closed Q -> Forall Q l -> Q (tsum l).
+Lemma closed_tsum Q l : closed Q -> l <> [] -> Forall Q l -> Q (tsum l).
 Proof.
-  intros [Q0 Qa]. induction l as [|x [|y r] IH]; intros H.
-  - exact Q0.
+  intros Qa. induction l as [|x [|y r] IH]; intros Hne H.
+  - now elim Hne.
   - now inversion H.
-  - inversion H; subst. apply Qa; auto.
+  - inversion H; subst. apply Qa; auto. apply IH; [discriminate|assumption].
+Qed.
+
+Lemma on_region_nonempty r l : In r (map fst l) -> on_region r l <> [].
+Proof.
+  induction l as [|x l IH]; simpl; intros H; [destruct H|]. rewrite on_region_cons.
+  destruct (region_eqb (fst x) r) eqn:E; [discriminate|].
+  destruct H as [H|H]; [subst r; rewrite region_eqb_refl in E; discriminate|]. now apply IH.
 Qed.
 
 Section Lowering.
@@ -680,8 +689,8 @@ Section Lowering.
   Lemma intadd_Q Q l : closed Q -> Forall (fun x => Q (snd x)) l -> Forall (fun x => Q (snd x)) (intadd isz l).
   Proof.
     intros Qc H. rewrite Forall_forall in *. intros x Hx. unfold intadd in Hx. apply filter_In in Hx. destruct Hx as [Hx _].
-    apply in_map_iff in Hx. destruct Hx as [d [<- _]]. simpl.
-    apply closed_tsum; auto. rewrite Forall_forall. intros e He. apply in_map_iff in He.
+    apply in_map_iff in Hx. destruct Hx as [d [<- Hd]]. simpl.
+    apply closed_tsum; auto; [apply on_region_nonempty; now apply (proj1 (rcanon_In _ _)) in Hd|]. rewrite Forall_forall. intros e He. apply in_map_iff in He.
     destruct He as [y [<- Hy]]. apply filter_In in Hy. destruct Hy as [Hy _]. apply filter_In in Hy. apply H. tauto.
   Qed.
 
@@ -742,39 +751,127 @@ Section Lowering.
     - apply intadd_Q; auto. rewrite Forall_forall. intros x Hx. apply in_map_iff in Hx. destruct Hx as [? [<- _]]. exact He.
   Qed.
 
-  (* ------------------------------------------------------- sums of integrals (ieval) *)
+  (* ------------------------------------------- sums and scalar multiples of integrals (ieval) *)
   Lemma spec_terms_add a b : spec_terms (IAdd a b) = spec_terms a ++ spec_terms b.
   Proof. unfold spec_terms. simpl. apply flat_map_app. Qed.
 
   Lemma spec_terms_int d e : spec_terms (IInt d e) = map (fun r => (r, e)) (members d).
   Proof. unfold spec_terms. simpl. apply app_nil_r. Qed.
 
+  Lemma spec_terms_zero : spec_terms IZero = [].
+  Proof. reflexivity. Qed.
+
+  Definition wmap (w : wrap) (l : list iterm) : list iterm := map (fun t => (fst t, wapp w (snd t))) l.
+
+  (* the specification distributes the operator over the integrals *)
+  Lemma spec_terms_wrap w x : spec_terms (IWrap w x) = wmap w (spec_terms x).
+  Proof.
+    unfold spec_terms, wmap. simpl. induction (leaves x) as [|[d e] l IH]; simpl; auto.
+    rewrite map_app, <- IH. f_equal. rewrite !map_map. reflexivity.
+  Qed.
+
+  Lemma wmap_keys w l : map fst (wmap w l) = map fst l.
+  Proof. unfold wmap. rewrite map_map. reflexivity. Qed.
+
+  (* what an operator does to the value of an integrand: a linear map of the field *)
+  Definition wsem (w : wrap) (v : F S) : F S :=
+    match w with
+    | WMulL c => fmul S (ev S c) v
+    | WMulR c => fmul S v (ev S c)
+    | WDiv c | WRDiv c => fdiv S v (ev S c)
+    | WNeg => fopp S v
+    end.
+
+  Lemma ev_wapp w e : ev S (wapp w e) = wsem w (ev S e).
+  Proof. destruct w; reflexivity. Qed.
+
+  Lemma wsem_zero w : wsem w 0 = 0.
+  Proof. destruct w; simpl; rewrite ?(Fdiv_def (Fth S)); ring. Qed.
+
+  Lemma wsem_add w a b : wsem w (a + b) = wsem w a + wsem w b.
+  Proof. destruct w; simpl; rewrite ?(Fdiv_def (Fth S)); ring. Qed.
+
+  Lemma rsum_wmap r w l : rsum r (wmap w l) = wsem w (rsum r l).
+  Proof.
+    induction l as [|x l IH].
+    - rewrite rsum_nil. symmetry. apply wsem_zero.
+    - change (wmap w (x :: l)) with ((fst x, wapp w (snd x)) :: wmap w l).
+      rewrite !rsum_cons, IH, wsem_add. simpl fst. simpl snd.
+      destruct (region_eqb (fst x) r); [now rewrite ev_wapp|now rewrite wsem_zero].
+  Qed.
+
+  Lemma iwrap_rsum r w l : rsum r (iwrap isz w l) = wsem w (rsum r l).
+  Proof. unfold iwrap. rewrite intadd_rsum. apply rsum_wmap. Qed.
+
+  (* recombining the integrals of the evaluated tree gives the form back, region by region *)
   Theorem ieval_rsum r x : rsum r (ieval isz x) = rsum r (spec_terms x).
   Proof.
-    induction x as [d e|a IHa b IHb]; simpl.
+    induction x as [d e|a IHa b IHb| |w a IHa]; simpl.
     - rewrite spec_terms_int. apply integral_rsum.
     - rewrite intadd_rsum, rsum_app, IHa, IHb, spec_terms_add, rsum_app. reflexivity.
+    - reflexivity.
+    - rewrite iwrap_rsum, IHa, spec_terms_wrap. symmetry. apply rsum_wmap.
   Qed.
 
   Lemma ieval_NoDup x : NoDup (map fst (ieval isz x)).
-  Proof. destruct x; simpl; [apply integral_NoDup|apply intadd_NoDup]. Qed.
+  Proof. destruct x; simpl; [apply integral_NoDup|apply intadd_NoDup|constructor|apply intadd_NoDup]. Qed.
 
   Lemma ieval_keys x r : In r (map fst (ieval isz x)) -> In r (map fst (spec_terms x)).
   Proof.
-    induction x as [d e|a IHa b IHb]; simpl; intros H.
+    induction x as [d e|a IHa b IHb| |w a IHa]; simpl; intros H.
     - apply integral_keys in H. rewrite spec_terms_int, map_map. simpl. now rewrite map_id.
     - apply intadd_keys in H. rewrite map_app in H. rewrite spec_terms_add, map_app.
       apply in_app_or in H. apply in_or_app. tauto.
+    - destruct H.
+    - unfold iwrap in H. apply intadd_keys in H. fold (wmap w (ieval isz a)) in H. rewrite wmap_keys in H.
+      rewrite spec_terms_wrap, wmap_keys. now apply IHa.
   Qed.
 
   Lemma ieval_nz x t : In t (ieval isz x) -> isz (snd t) = false.
-  Proof. destruct x; simpl; [apply integral_nz|apply intadd_nz]. Qed.
+  Proof. destruct x; simpl; [apply integral_nz|apply intadd_nz|intros []|apply intadd_nz]. Qed.
 
-  Lemma ieval_Q Q x : closed Q -> Forall (fun de => Q (snd de)) (leaves x) -> Forall (fun t => Q (snd t)) (ieval isz x).
+  (* predicates on integrands that survive the re-grouping under any stack of operators *)
+  Definition wclosed (Q : texpr -> Prop) : Prop := forall ws, closed (fun e => Q (wapps ws e)).
+
+  Lemma wapps_snoc ws w e : wapps (ws ++ [w]) e = wapps ws (wapp w e).
+  Proof. unfold wapps. now rewrite fold_right_app. Qed.
+
+  Lemma ieval_Qw Q x : wclosed Q -> forall ws,
+    Forall (fun de => Q (wapps ws (snd de))) (leaves x) -> Forall (fun t => Q (wapps ws (snd t))) (ieval isz x).
   Proof.
-    intros Qc. induction x as [d e|a IHa b IHb]; simpl; intros H.
-    - inversion H; subst. now apply integral_Q.
-    - apply Forall_app in H. destruct H as [Ha Hb]. apply intadd_Q; auto. apply Forall_app. auto.
+    intros Qc. induction x as [d e|a IHa b IHb| |w a IHa]; simpl; intros ws H.
+    - inversion H; subst. now apply (integral_Q (fun e => Q (wapps ws e))).
+    - apply Forall_app in H. destruct H as [Ha Hb]. apply (intadd_Q (fun e => Q (wapps ws e))); auto.
+      apply Forall_app. auto.
+    - constructor.
+    - unfold iwrap. apply (intadd_Q (fun e => Q (wapps ws e))); auto.
+      rewrite Forall_map. simpl.
+      assert (G : Forall (fun t => Q (wapps (ws ++ [w]) (snd t))) (ieval isz a)).
+      { apply IHa. rewrite Forall_map in H. simpl in H. revert H. apply Forall_impl. intros de. now rewrite wapps_snoc. }
+      revert G. apply Forall_impl. intros t. now rewrite wapps_snoc.
+  Qed.
+
+  Lemma ieval_Q Q x : wclosed Q -> Forall (fun de => Q (snd de)) (leaves x) -> Forall (fun t => Q (snd t)) (ieval isz x).
+  Proof. intros Qc H. apply (ieval_Qw Q x Qc []). exact H. Qed.
+
+  (* the arms `return self` of Integral.__add__ / __radd__ (o == 0) agree with the re-grouping of a single integral *)
+  Lemma intadd_single r e : isz e = false -> intadd isz [(r, e)] = [(r, e)].
+  Proof.
+    intros Z. unfold intadd. simpl. rewrite Z. simpl. unfold rcanon. simpl. rewrite region_eqb_refl. simpl. now rewrite Z.
+  Qed.
+
+  (* c / I is computed like I / c *)
+  Lemma rdiv_is_div c x : ieval isz (IWrap (WRDiv c) x) = ieval isz (IWrap (WDiv c) x).
+  Proof. reflexivity. Qed.
+
+  (* a - b = a + (-b); sum([..]) starts from the number 0 *)
+  Lemma isub_spec a b : spec_terms (ISub a b) = spec_terms a ++ wmap WNeg (spec_terms b).
+  Proof. unfold ISub. now rewrite spec_terms_add, spec_terms_wrap. Qed.
+
+  Lemma isum_spec l : forall acc, spec_terms (fold_left IAdd l acc) = spec_terms acc ++ flat_map spec_terms l.
+  Proof.
+    induction l as [|x l IH]; intros acc; simpl; [now rewrite app_nil_r|].
+    rewrite IH, spec_terms_add. now rewrite app_assoc.
   Qed.
 End Lowering.
 
@@ -974,7 +1071,7 @@ Section LowerForm.
   Lemma d_expr_Q Q f : closed Q -> Forall (fun t => Q (snd t)) (f_expr f) ->
     Forall (fun kv => match snd kv with Some a => Q a | None => True end) (d_expr_of isz f).
   Proof.
-    intros [Q0 Qa] H. unfold d_expr_of.
+    intros Qa H. unfold d_expr_of.
     set (P := fun kv : region * option texpr => match snd kv with Some a => Q a | None => True end).
     assert (P0 : forall l, Forall P (map (fun r => (r, @None texpr)) l)).
     { intros l. rewrite Forall_forall. intros x Hx. apply in_map_iff in Hx. destruct Hx as [? [<- _]]. exact I. }
@@ -1001,6 +1098,50 @@ Section LowerForm.
     - apply Fadd; auto.
   Qed.
 End LowerForm.
+
+(* ------------------------------------------- operators on integrands are linear, for every valuation *)
+Section Wraps.
+  Variable S : dfield.
+  Add Field SFw : (Fth S).
+  Infix "+" := (fadd S).
+  Notation evg := (evf S).
+
+  Definition wsemg (g : valuation S) (w : wrap) (v : F S) : F S :=
+    match w with
+    | WMulL c => fmul S (evg g c) v
+    | WMulR c => fmul S v (evg g c)
+    | WDiv c | WRDiv c => fdiv S v (evg g c)
+    | WNeg => fopp S v
+    end.
+
+  Lemma evf_wapp g w e : evg g (wapp w e) = wsemg g w (evg g e).
+  Proof. destruct w; reflexivity. Qed.
+
+  Lemma wsemg_add g w a b : wsemg g w (a + b) = wsemg g w a + wsemg g w b.
+  Proof. destruct w; simpl; rewrite ?(Fdiv_def (Fth S)); ring. Qed.
+
+  Lemma evf_wapps_add g ws x y : evg g (wapps ws (TAdd x y)) = evg g (wapps ws x) + evg g (wapps ws y).
+  Proof.
+    induction ws as [|w ws IH]; [reflexivity|]. simpl. now rewrite !evf_wapp, IH, wsemg_add.
+  Qed.
+End Wraps.
+
+Lemma additive_wapps U ws x y :
+  additive_in U (wapps ws x) -> additive_in U (wapps ws y) -> additive_in U (wapps ws (TAdd x y)).
+Proof.
+  intros Hx Hy S g a b. rewrite !evf_wapps_add, Hx, Hy.
+  pose proof (F_R (Fth S)) as R.
+  rewrite <- !(Radd_assoc R). f_equal. rewrite !(Radd_assoc R). f_equal. apply (Radd_comm R).
+Qed.
+
+Lemma sidefree_wapps ws x y :
+  sidefree (wapps ws x) = true -> sidefree (wapps ws y) = true -> sidefree (wapps ws (TAdd x y)) = true.
+Proof.
+  revert x y. induction ws as [|w ws IH]; simpl; intros x y Hx Hy; [now rewrite Hx, Hy|].
+  destruct w; simpl in *;
+    repeat match goal with H : _ && _ = true |- _ => apply andb_true_iff in H; destruct H end;
+    repeat (apply andb_true_iff; split); auto.
+Qed.
 
 (* ------------------------------------------------------ TerminalExpr.eval on a form *)
 Lemma to_matrix_form_shape (b : bool) trials tests e :
@@ -1102,13 +1243,14 @@ Section LowerMain.
   Definition good (trials tests : list comp) (e : texpr) : Prop :=
     sidefree e = true /\ (tests <> [] -> additive_in tests e) /\ (tests <> [] -> trials <> [] -> additive_in trials e).
 
-  Lemma good_closed trials tests : closed (good trials tests).
+  Lemma good_wclosed trials tests : wclosed (good trials tests).
   Proof.
-    split.
-    - split; [reflexivity|]. split; intros; apply additive_TZ0.
-    - intros x y (Sx & Ax & Bx) (Sy & Ay & By). split; [simpl; now rewrite Sx, Sy|].
-      split; intros; apply additive_TAdd; auto.
+    intros ws x y (Sx & Ax & Bx) (Sy & Ay & By). split; [now apply sidefree_wapps|].
+    split; intros; apply additive_wapps; auto.
   Qed.
+
+  Lemma good_closed trials tests : closed (good trials tests).
+  Proof. exact (good_wclosed trials tests []). Qed.
 
   Lemma good_matrix trials tests r a :
     NoDup tests -> NoDup trials -> is_iface r = false -> good trials tests a ->
@@ -1176,6 +1318,10 @@ Section LowerMain.
 End LowerMain.
 
 (* ------------------------------------------ the user-level statements (lower, lower_functional) *)
+(* trees of integral(..), 0 and + only *)
+Fixpoint plain_tree (x : iexpr) : Prop :=
+  match x with IInt _ _ => True | IAdd a b => plain_tree a /\ plain_tree b | IZero => True | IWrap _ _ => False end.
+
 Section TopLevel.
   Variable isz : texpr -> bool.
 
@@ -1206,15 +1352,27 @@ Section TopLevel.
   Qed.
 
   (* a form all of whose integrands vanish is the number 0: no kernels, no error *)
-  Lemma ieval_all_zero x : Forall (fun de => isz (snd de) = true) (leaves x) -> ieval isz x = [].
+  Lemma ieval_all_zero x : Forall (fun de => isz (snd de) = true) (raw_leaves x) -> ieval isz x = [].
   Proof.
-    induction x as [d e|a IHa b IHb]; simpl; intros H.
+    induction x as [d e|a IHa b IHb| |w a IHa]; simpl; intros H.
     - inversion H; subst. simpl in *. unfold integral. now rewrite H2.
     - apply Forall_app in H. destruct H as [Ha Hb]. rewrite IHa, IHb by assumption. reflexivity.
+    - reflexivity.
+    - rewrite IHa by assumption. reflexivity.
   Qed.
 
-  Theorem lower_zero_form k x : Forall (fun de => isz (snd de) = true) (leaves x) -> lower isz k x = LZero.
+  (* whatever the operators around them: when every integral(d, e) of the tree has a vanishing integrand the form is
+     the number 0 *)
+  Theorem lower_zero_form k x : Forall (fun de => isz (snd de) = true) (raw_leaves x) -> lower isz k x = LZero.
   Proof. intros H. unfold lower, mk_form. now rewrite ieval_all_zero. Qed.
+
+  (* on a tree without operators the integrals are the leaves *)
+  Lemma raw_leaves_plain x : plain_tree x -> raw_leaves x = leaves x.
+  Proof.
+    induction x as [d e|a IHa b IHb| |w a IHa]; simpl; auto.
+    - intros [Ha Hb]. now rewrite IHa, IHb.
+    - intros [].
+  Qed.
 
   (* a functional whose integrand vanishes lowers to one zero kernel, on the first region of its domain *)
   Lemma fold_set_none doms : forall d, Forall (fun kv : region * option texpr => snd kv = None) d ->
@@ -1286,7 +1444,7 @@ Section TopLevel.
                       NoDup tests /\ NoDup trials /\ Forall (fun t => good trials tests (snd t)) (f_expr f)).
       { rewrite Hk. unfold leaves_good in Hg. destruct (get_trials_tests k) as [trials tests].
         destruct Hg as (Dt & Du & Hl). repeat split; auto. rewrite Hfe.
-        apply ieval_Q; auto. apply good_closed. }
+        apply ieval_Q; auto. apply good_wclosed. }
       destruct (lower_form isz f) as [ks|] eqn:El.
       + destruct (lower_form_sound isz S Hz f ks Hok (fun r H => Hni r (Hkeys r H)) Hgood El) as (H1 & H2 & H3).
         split; [exact H1|]. split.
@@ -1609,3 +1767,197 @@ Proof.
     { apply existsb_exists. exists r. split; auto. apply region_eqb_refl. }
     congruence.
 Qed.
+
+(* ================= E. form objects with non-atomic domain entries (FormsM.rform, lower_rform) *)
+Definition inj {V} (kv : region * V) : dom * V := (DReg (fst kv), snd kv).
+
+Lemma dict_upd_inj {V} k (g : option V -> V) (d : list (region * V)) :
+  dict_upd dom_eqb (DReg k) g (map inj d) = map inj (dict_upd region_eqb k g d).
+Proof.
+  induction d as [|[k' v] d IH]; simpl; [reflexivity|].
+  destruct (region_eqb k k'); simpl; [reflexivity|]. now rewrite IH.
+Qed.
+
+Lemma dict_upd_fresh {V} k (g : option V -> V) (d : list (dom * V)) :
+  ~ In k (map fst d) -> dict_upd dom_eqb k g d = d ++ [(k, g None)].
+Proof.
+  induction d as [|[k' v] d IH]; simpl; intros H; [reflexivity|].
+  destruct (dom_eqb k k') eqn:E.
+  - apply dom_eqb_eq in E. subst k'. exfalso. apply H. now left.
+  - rewrite IH; [reflexivity|]. intros Hin. apply H. now right.
+Qed.
+
+Section RForm.
+  Variable isz : texpr -> bool.
+
+  (* a form object as the constructors build it, seen as a general object: the same d_expr *)
+  Lemma rd_expr_embed f : rd_expr_of isz (embed f) = map inj (d_expr_of isz f).
+  Proof.
+    unfold rd_expr_of, d_expr_of, embed. simpl rf_expr. simpl rf_domain. simpl rf_kind.
+    assert (E0 : map (fun k : dom => (k, @None texpr)) (map DReg (f_domain f)) =
+                 map inj (map (fun r : region => (r, @None texpr)) (f_domain f))) by (rewrite !map_map; reflexivity).
+    rewrite E0. generalize (map (fun r : region => (r, @None texpr)) (f_domain f)). intros d0.
+    assert (Fadd : forall (args : list iterm) d,
+               fold_left (fun d a => rd_add isz (DReg (fst a)) (snd a) d) args (map inj d) =
+               map inj (fold_left (fun d a => dexpr_add isz (fst a) (snd a) d) args d)).
+    { induction args as [|a args IH]; intros d; simpl; [reflexivity|].
+      unfold rd_add at 2, dexpr_add at 2. rewrite dict_upd_inj. apply IH. }
+    assert (Fset : forall v (doms : list region) d,
+               fold_left (fun d k => rd_set k v d) (map DReg doms) (map inj d) =
+               map inj (fold_left (fun d r' => dexpr_set r' v d) doms d)).
+    { intros v. induction doms as [|x doms IH]; intros d; simpl; [reflexivity|].
+      unfold rd_set at 2, dexpr_set at 2. rewrite dict_upd_inj. apply IH. }
+    destruct (f_expr f) as [|[r0 e0] [|a2 rest]].
+    - destruct (f_kind f); first [apply (Fset None (f_domain f))|apply (Fset None [])].
+    - destruct (f_kind f); first [apply (Fset (Some e0) (f_domain f))|apply (Fset (Some e0) [r0])].
+    - apply Fadd.
+  Qed.
+
+  Lemma rd_new_embed trials tests (l : list (region * option texpr)) :
+    NoDup (map fst l) -> (forall r, In r (map fst l) -> is_iface r = false) ->
+    forall acc, (forall r, In r (map fst l) -> ~ In (DReg r) (map fst acc)) ->
+    fold_left (rd_new_step isz trials tests) (map inj l) (Some acc) =
+    Some (acc ++ map lift (flat_map (kern isz trials tests) l)).
+  Proof.
+    induction l as [|[r v] l IH]; simpl; intros Hd Hi acc Hacc; [now rewrite app_nil_r|].
+    inversion Hd as [|? ? Hn Hd']; subst.
+    assert (Hi' : forall r', In r' (map fst l) -> is_iface r' = false) by (intros; apply Hi; now right).
+    unfold kern at 1. simpl.
+    destruct v as [a|]; simpl.
+    - destruct (isz a); simpl.
+      + apply IH; auto; intros r' Hr'; apply Hacc; now right.
+      + rewrite (Hi r (or_introl eq_refl)).
+        rewrite dict_upd_fresh by (apply Hacc; now left).
+        rewrite IH; auto.
+        * now rewrite <- app_assoc.
+        * intros r' Hr'. rewrite map_app. simpl. intros Hin. apply in_app_or in Hin. destruct Hin as [Hin|[Hin|[]]].
+          -- revert Hin. apply Hacc. now right.
+          -- inversion Hin; subst. contradiction.
+    - apply IH; auto; intros r' Hr'; apply Hacc; now right.
+  Qed.
+
+  (* on the objects the constructors build, the general arm is the arm of lower_form: every theorem about lower_form
+     is a theorem about TerminalExpr.eval on those objects, and the block "treating subdomains" does nothing *)
+  Theorem lower_rform_embed f :
+    form_ok f ->
+    (forall r, In r (f_domain f) \/ In r (map fst (f_expr f)) -> is_iface r = false) ->
+    lower_rform isz (embed f) = option_map (map lift) (lower_form isz f).
+  Proof.
+    intros Hok Hif.
+    assert (Hkeys : forall r, In r (map fst (d_expr_of isz f)) -> is_iface r = false).
+    { intros r Hr. apply Hif. now apply (d_expr_keys isz). }
+    assert (Hnoif : existsb (fun kv : region * option texpr => is_iface (fst kv)) (d_expr_of isz f) = false).
+    { destruct (existsb _ _) eqn:X; auto. apply existsb_exists in X. destruct X as [[r v] [Hin Hi]].
+      simpl in Hi. rewrite Hkeys in Hi; [discriminate|]. apply in_map_iff. exists (r, v). auto. }
+    rewrite (lower_form_eq isz f Hnoif). unfold lower_rform, rd_new_of. rewrite rd_expr_embed.
+    assert (E1 : existsb (fun kv : dom * option texpr => key_iface (fst kv)) (map inj (d_expr_of isz f)) = false).
+    { rewrite <- Hnoif. clear. induction (d_expr_of isz f) as [|[r v] d IH]; simpl; auto. now rewrite IH. }
+    rewrite E1. simpl rf_kind. destruct (get_trials_tests (f_kind f)) as [trials tests].
+    rewrite (rd_new_embed trials tests (d_expr_of isz f) (d_expr_NoDup isz f Hok) Hkeys []) by (intros; simpl; tauto).
+    simpl app. simpl option_map.
+    destruct (flat_map (kern isz trials tests) (d_expr_of isz f)) as [|k0 ks0] eqn:Ek.
+    - simpl. destruct (d_expr_of isz f) as [|[r0 v0] d']; reflexivity.
+    - rewrite <- Ek. set (ks := flat_map (kern isz trials tests) (d_expr_of isz f)).
+      assert (Hne : map lift ks <> []) by (unfold ks; rewrite Ek; discriminate).
+      destruct (map lift ks) as [|x xs] eqn:Em; [now elim Hne|]. rewrite <- Em.
+      rewrite distribute_atomic.
+      assert (Hat : forallb (fun km : dom * matrix => atomic_key (fst km)) (map lift ks) = true).
+      { clear. induction ks as [|k ks IH]; simpl; auto. }
+      now rewrite Hat.
+  Qed.
+
+  (* -------------------------------------------------- the general arm: nothing is lost in the distribution *)
+  Lemma interior_members k k' : interior_of k = Some k' -> members k' = members k.
+  Proof.
+    destruct k as [r|l|ps]; simpl; try discriminate.
+    - intros H. inversion H. reflexivity.
+    - destruct ps as [|p [|q ps]]; intros H; inversion H; reflexivity.
+  Qed.
+
+  Lemma rd_expr_keys f k : In k (map fst (rd_expr_of isz f)) -> In k (rf_domain f) \/ exists r, k = DReg r.
+  Proof.
+    assert (Kupd : forall {V} k0 (g : option V -> V) d k1, In k1 (map fst (dict_upd dom_eqb k0 g d)) -> k1 = k0 \/ In k1 (map fst d)).
+    { intros V k0 g d k1. induction d as [|[k2 v] d IH]; simpl; [intuition congruence|].
+      destruct (dom_eqb k0 k2) eqn:E; simpl; [tauto|]. intros [H|H]; auto. destruct (IH H); auto. }
+    assert (Fadd : forall (args : list iterm) d, In k (map fst (fold_left (fun d a => rd_add isz (DReg (fst a)) (snd a) d) args d)) ->
+               In k (map fst d) \/ exists r, k = DReg r).
+    { induction args as [|a args IH]; intros d H; simpl in H; auto. apply IH in H. destruct H as [H|H]; auto.
+      apply Kupd in H. destruct H as [->|H]; eauto. }
+    assert (Fset : forall v doms d, In k (map fst (fold_left (fun d k' => rd_set k' v d) doms d)) -> In k (map fst d) \/ In k doms).
+    { intros v. induction doms as [|x doms IH]; intros d H; simpl in H; auto. apply IH in H. destruct H as [H|H]; [|right; now right].
+      apply Kupd in H. destruct H as [->|H]; auto. right. now left. }
+    assert (K0 : map fst (map (fun k : dom => (k, @None texpr)) (rf_domain f)) = rf_domain f) by (rewrite map_map; apply map_id).
+    unfold rd_expr_of. destruct (rf_expr f) as [|[r0 e0] [|a2 rest]]; intros H.
+    - apply Fset in H. rewrite K0 in H. destruct (rf_kind f); simpl in H; tauto.
+    - apply Fset in H. rewrite K0 in H. destruct (rf_kind f); simpl in H; intuition eauto.
+    - apply Fadd in H. rewrite K0 in H. exact H.
+  Qed.
+End RForm.
+
+Lemma dict_upd_dom_keys {V} k0 (g : option V -> V) d k1 :
+  In k1 (map fst (dict_upd dom_eqb k0 g d)) -> k1 = k0 \/ In k1 (map fst d).
+Proof.
+  induction d as [|[k2 v] d IH]; simpl; [intuition congruence|].
+  destruct (dom_eqb k0 k2) eqn:E; simpl; [tauto|]. intros [H|H]; auto. destruct (IH H); auto.
+Qed.
+
+Lemma dict_upd_Forall {V} (P : V -> Prop) k0 (g : option V -> V) d :
+  (forall o, P (g o)) -> Forall (fun kv => P (snd kv)) d -> Forall (fun kv => P (snd kv)) (dict_upd dom_eqb k0 g d).
+Proof.
+  intros Hg H. induction H as [|[k2 v] d Hv Hd IH]; simpl.
+  - constructor; [apply Hg|constructor].
+  - destruct (dom_eqb k0 k2); constructor; auto. simpl. apply Hg.
+Qed.
+
+Section RFormSound.
+  Variable isz : texpr -> bool.
+  Variable S : dfield.
+
+  Lemma rd_new_none trials tests l : fold_left (rd_new_step isz trials tests) l None = None.
+  Proof. induction l; simpl; auto. Qed.
+
+  Lemma rd_new_inv trials tests (P : dom -> Prop) n m :
+    (forall a, shaped n m (to_matrix_form false trials tests a)) ->
+    forall l acc d, all_shaped n m acc -> (forall k, In k (map fst acc) -> P k) ->
+      (forall k k', In k (map fst l) -> interior_of k = Some k' -> P k') ->
+      fold_left (rd_new_step isz trials tests) l (Some acc) = Some d ->
+      all_shaped n m d /\ forall k, In k (map fst d) -> P k.
+  Proof.
+    intros Hsh. induction l as [|[k v] l IH]; simpl; intros acc d Ha Hp Hl Hf.
+    - inversion Hf; subst. auto.
+    - assert (Hl' : forall k0 k', In k0 (map fst l) -> interior_of k0 = Some k' -> P k') by (intros; eapply Hl; eauto).
+      destruct v as [a|]; simpl in Hf; [|eapply IH; eauto].
+      destruct (isz a); [eapply IH; eauto|].
+      destruct (interior_of k) as [k'|] eqn:Ei; [|rewrite rd_new_none in Hf; discriminate].
+      eapply IH; [| | |exact Hf]; auto.
+      + unfold all_shaped. apply dict_upd_Forall; auto.
+      + intros k1 H1. apply dict_upd_dom_keys in H1. destruct H1 as [->|H1]; auto. eapply Hl; eauto.
+  Qed.
+
+  (* TerminalExpr.eval on any form object, outside the corner case: the kernels are the per-entry kernels [d_new] after
+     the block "treating subdomains"; for every region the kernels say in total what d_new said, and no target is a Union *)
+  Theorem lower_rform_conserves f d_new ks :
+    (forall k, In k (rf_domain f) -> NoDup (members k)) ->
+    (snd (get_trials_tests (rf_kind f)) = [] -> fst (get_trials_tests (rf_kind f)) = []) ->
+    rd_new_of isz f = Some d_new -> d_new <> [] -> lower_rform isz f = Some ks ->
+    ks = distribute d_new /\ (forall r, ksum S r ks = ksum S r d_new) /\ filter is_union (map fst ks) = [].
+  Proof.
+    intros Hnd Hft Hn Hne Hl. unfold lower_rform in Hl. rewrite Hn in Hl.
+    destruct (existsb _ _); [discriminate|].
+    unfold rd_new_of in Hn.
+    destruct (get_trials_tests (rf_kind f)) as [trials tests] eqn:Eg. simpl in Hft.
+    destruct d_new as [|x xs]; [now elim Hne|].
+    destruct (forallb _ _); [|discriminate]. inversion Hl; subst ks. clear Hl.
+    split; [reflexivity|].
+    pose proof (to_matrix_form_shape false trials tests) as Hshape.
+    destruct (rd_new_inv trials tests (fun k => NoDup (members k)) (Nat.max 1 (length tests)) (Nat.max 1 (length trials))
+                (fun a => Hshape a Hft) (rd_expr_of isz f) [] (x :: xs)) as [Hs Hk]; auto.
+    - constructor.
+    - intros k [].
+    - intros k k' Hin Hi. rewrite (interior_members k k' Hi).
+      apply (rd_expr_keys isz) in Hin. destruct Hin as [Hin|[r ->]]; [now apply Hnd|].
+      simpl. constructor; [simpl; tauto|constructor].
+    - split; [|apply distribute_no_union].
+      intros r. apply (distribute_sum S (Nat.max 1 (length tests)) (Nat.max 1 (length trials))); auto.
+  Qed.
+End RFormSound.
